@@ -43,7 +43,7 @@ PURE_METHODS = {
     'startswith', 'endswith', 'replace', 'navigate', 'select_any', 'select_many', 'select_one', 'find_metaclass',
     'find_class', 'rfind', 'find', 'index', 'count', 'copy', 'title', 'isdigit', 'issubset', 'issuperset', 'union',
     'difference', 'intersection', 'navigate_one', 'navigate_many', 'navigate_any', 'where_eq', 'order_by', 'is_',
-    'attribute_type', 'attribute_names', 'compute_lookup_key', 'compute_index_key', 'encode', 'decode',
+    'attribute_type', 'attribute_names', 'encode', 'decode',
     'lexspan', 'linespan', 'lineno', 'lexpos', 'splitlines', 'isalpha', 'isalnum', 'capitalize', 'partition', 'rpartition',
 }
 
@@ -969,6 +969,22 @@ class FunctionNormalizer(object):
             if not self._split_one_web():
                 break
 
+    def _dominated_by_other_def(self, load, name, st):
+        '''the load sits after another top-level definition `name = ..` (or inside a loop binding name) in some statement list'''
+        for owner, fld, lst in walk_lists(self.fn):
+            for k, s2 in enumerate(lst):
+                if s2 is st:
+                    continue
+                if isinstance(s2, ast.Assign) and len(s2.targets) == 1 and isinstance(s2.targets[0], ast.Name) and s2.targets[0].id == name \
+                        and name not in names_loaded(s2.value):
+                    for later in lst[k + 1:]:
+                        if any(x is load for x in ast.walk(later)):
+                            return True
+                if isinstance(s2, ast.For) and name in names_stored(s2.target) and not any(x is load for x in ast.walk(s2.iter)):
+                    if any(x is load for b in s2.body for x in ast.walk(b)):
+                        return True
+        return False
+
     def _split_one_web(self):
         fn = self.fn
         a = fn.args
@@ -1097,6 +1113,8 @@ class FunctionNormalizer(object):
                                 break
                         continue
                     # after the region: only behind a killing re-definition, and the region must not be left by break/continue
+                    if self._dominated_by_other_def(n, name, st):
+                        continue
                     if j is None or o < order[id(lst[j])]:
                         ok = False
                         break
@@ -1253,6 +1271,27 @@ class FunctionNormalizer(object):
                         del st.body[0]
                         if not st.body:
                             st.body.append(at(ast.Pass(), st))
+                        continue
+                # for T in (E for x in IT): BODY   ->   for x in IT: T = E; BODY
+                if isinstance(st, ast.For) and isinstance(st.iter, (ast.GeneratorExp, ast.ListComp)) and len(st.iter.generators) == 1 and \
+                        not st.iter.generators[0].ifs and not st.orelse and isinstance(st.iter.generators[0].target, (ast.Name, ast.Tuple)):
+                    g = st.iter.generators[0]
+                    gvars = names_stored(g.target)
+                    body_names = set()
+                    for b_ in st.body:
+                        body_names |= {n.id for n in ast.walk(b_) if isinstance(n, ast.Name)}
+                    others = {n.id for n in ast.walk(self.fn) if isinstance(n, ast.Name)} - gvars
+                    used_elsewhere = any(isinstance(n, ast.Name) and n.id in gvars for n in ast.walk(self.fn)
+                                         if not any(n is x for x in ast.walk(st.iter)))
+                    if not (gvars & body_names) and not used_elsewhere and is_pure(st.iter.elt):
+                        bind = at(ast.Assign(targets=[st.target], value=st.iter.elt), st)
+                        for x in ast.walk(bind.targets[0]):
+                            if hasattr(x, 'ctx'):
+                                x.ctx = ast.Store()
+                        tgt = clone(g.target)
+                        st.target = tgt
+                        st.iter = g.iter
+                        st.body.insert(0, bind)
                         continue
                 # x = Ctor(); A.b = x   ->   A.b = Ctor()   (x then stands for A.b)
                 if isinstance(st, ast.Assign) and len(st.targets) == 1 and isinstance(st.targets[0], ast.Name) and nxt is not None and \
